@@ -54,7 +54,7 @@ def main():
                 lines = [l for l in out.split("\n") if l.startswith(("VIOLATION", "KNOWN-FINDING", "[", "HARNESS"))]
                 res["checks"][pid] = {"exit": rc, "lines": [l[:400] for l in lines]}
         finally:
-            sh("git checkout -- .", wt)
+            sh("git checkout -- . && git clean -fdq -e out -e PROPERTY.txt -e TASK.txt", wt)
         rc, out = sh(f"{PY} {os.path.join(d, 'demo.py')}", wt)
         res["demo_without_patch_exit"] = rc
         confirmed = "582 passed" in res.get("tests", "") and res["demo_with_patch_exit"] != 0 and res["demo_without_patch_exit"] == 0
